@@ -5,6 +5,8 @@ CONSTANTS MaxN, MaxK, Delay, Timeout, Durs, CancelTimes
 
 NoCancel == -1
 Kinds == {"ok", "fail", "hang", "rerr", "stub"}
+\* "rerr": a target that ends in an error without an attempt - its name does not resolve, or RequireECH is set and the target has
+\* no ECH config list (dial.go: both report through the same error path and the worker goes on with the next target).
 \* "stub": a DialFunc that does not look at its context and succeeds after d (later than Timeout): Dial cannot bound it,
 \* but the connection it produces is still a connection - delivered, or closed if the outcome is already decided
 Outcome == [kind : {"ok","fail"}, d : Durs] \cup {[kind |-> "hang", d |-> 0], [kind |-> "rerr", d |-> 0], [kind |-> "stub", d |-> Timeout + 1]}
